@@ -281,6 +281,16 @@ class CGLS(object):
         norms0 = LA.norm(s)
         normx = LA.norm(x)
         gamma, xmax = norms0**2, normx
+
+        # A start vector that already solves the system is returned as it is: its normal residual is round-off
+        # (measured against the normal residual of the zero vector), cannot be reduced by the factor tol, and
+        # iterating on it diverges.
+        if self.explicitA:
+            norms_ref = max(norms0, LA.norm(self.A.T @ self.b))
+        else:
+            norms_ref = max(norms0, LA.norm(self.A(self.b, 2)))
+        if norms0 <= 1e3*eps*norms_ref:
+            return x, 0
     
         # main loop
         k, flag, indefinite = 0, 0, 0
@@ -386,6 +396,11 @@ class PCGLS:
         norms0 = LA.norm(s)
         normx = LA.norm(x)
         gamma, xmax = norms0**2, normx
+
+        # A start vector that already solves the system is returned as it is (see CGLS)
+        norms_ref = max(norms0, LA.norm(self._apply_Pinv(self._apply_A(self._b, 2), 2)))
+        if norms0 <= 1e3*eps*norms_ref:
+            return x, 0
 
         # main loop
         k, flag, indefinite = 0, 0, 0
